@@ -6,6 +6,7 @@ import (
 	"fmt"
 	"log/slog"
 	"reflect"
+	"sync"
 )
 
 var (
@@ -22,7 +23,12 @@ const (
 
 type stagedProp interface {
 	CommitStaged()
+	RollbackStaged()
+	NotifyCommitted()
 }
+
+// Updates are applied one at a time.
+var updateMu sync.Mutex
 
 type StagedConfigProp interface {
 	stagedProp
@@ -53,33 +59,35 @@ func setPropsFromMapRecursive(val reflect.Value, updates map[string]any) (staged
 
 			found = true
 			if fieldVal.Kind() == reflect.Struct {
-				// If the value is a map, it's a nested update
-				if nestedUpdates, ok := value.(map[string]any); ok {
-					nestedStaged, err := setPropsFromMapRecursive(fieldVal.Addr(), nestedUpdates)
-					if err != nil {
-						return nil, err
-					}
-					stagedProps = append(stagedProps, nestedStaged...)
-					break
-				}
-
 				// Check if it's a ConfigProp
 				if fieldVal.CanAddr() {
 					fieldAddr := fieldVal.Addr()
 					if prop, ok := fieldAddr.Interface().(StagedConfigProp); ok {
 						valueBytes, err := json.Marshal(value)
 						if err != nil {
-							return nil, err
+							return stagedProps, err
 						}
 
 						if err := prop.UnmarshalJSONStaged(valueBytes); err != nil {
-							return nil, err
+							return stagedProps, err
 						}
 
 						stagedProps = append(stagedProps, prop)
 						break
 					}
 				}
+
+				// If the value is a map, it's a nested update
+				if nestedUpdates, ok := value.(map[string]any); ok {
+					nestedStaged, err := setPropsFromMapRecursive(fieldVal.Addr(), nestedUpdates)
+					stagedProps = append(stagedProps, nestedStaged...)
+					if err != nil {
+						return stagedProps, err
+					}
+					break
+				}
+
+				return stagedProps, fmt.Errorf("config section '%s' must be an object", key)
 			}
 			break
 		}
@@ -103,10 +111,20 @@ func UpdatePartialFromConfig(cfg *Config, updates map[string]any) (UpdateStatus,
 		return UpdateStatusFailed, nil
 	}
 
+	updateMu.Lock()
+	defer updateMu.Unlock()
+
+	// Nothing takes effect, is written or announced unless the whole update is acceptable.
 	slog.Debug("Setting properties from JSON map...", "updates", updates)
 	stagedProps, err := setPropsFromMapRecursive(reflect.ValueOf(cfg), updates)
+	rollback := func() {
+		for _, prop := range stagedProps {
+			prop.RollbackStaged()
+		}
+	}
 	if err != nil {
 		slog.Error("Failed to set properties from map", "error", err)
+		rollback()
 		return UpdateStatusFailed, fmt.Errorf("%w: %v", ErrUpdateFailed, err)
 	}
 
@@ -118,12 +136,18 @@ func UpdatePartialFromConfig(cfg *Config, updates map[string]any) (UpdateStatus,
 
 	if err := cfg.verify(); err != nil {
 		slog.Error("Updated config failed verification", "error", err)
+		rollback()
 		return UpdateStatusFailed, fmt.Errorf("%w: %v", ErrUpdateFailed, err)
 	}
 
 	if err := cfg.persist(); err != nil {
 		slog.Error("Failed to persist updated config", "error", err)
+		rollback()
 		return UpdateStatusFailed, fmt.Errorf("%w: %v", ErrUpdateFailed, err)
+	}
+
+	for _, prop := range stagedProps {
+		prop.NotifyCommitted()
 	}
 
 	status := UpdateStatusSuccess
